@@ -45,8 +45,106 @@ func rtErr(i *interpreter, msg string) targetPanic {
 // sstr is a string at least one of whose bytes is symbolic. Elements are uint8 or symv(Uint8).
 type sstr []value
 
+// rope is a lazily rendered string: byte elements interleaved with lazyDec items (decimal
+// renderings of symbolic integers that have not been forked on yet). It is materialised only
+// when some operation inspects the text; strings that merely flow into events never are.
+type rope struct {
+	parts []value
+	done  value // string or sstr once materialised
+}
+
+type lazyDec struct {
+	fr *frame
+	v  symv
+}
+
+func (r *rope) force() value {
+	if r.done != nil {
+		return r.done
+	}
+	var out []value
+	for _, p := range r.parts {
+		if l, ok := p.(lazyDec); ok {
+			out = append(out, strElems(decimalBV(l.fr, l.v))...)
+		} else {
+			out = append(out, p)
+		}
+	}
+	r.done = mkStr(out)
+	return r.done
+}
+
+// lazyBytes returns the rope's parts un-materialised if every lazy decimal is followed by a
+// concrete non-digit byte or the end of the text (then equal layouts are equal iff their parts are).
+func (r *rope) lazyBytes() ([]value, bool) {
+	if r.done != nil {
+		return nil, false
+	}
+	for i, p := range r.parts {
+		if _, ok := p.(lazyDec); !ok {
+			continue
+		}
+		if i+1 == len(r.parts) {
+			continue
+		}
+		c, ok := r.parts[i+1].(uint8)
+		if !ok || (c >= '0' && c <= '9') {
+			return nil, false
+		}
+	}
+	return append([]value{}, r.parts...), true
+}
+
+func hasLazy(b []value) bool {
+	for _, e := range b {
+		if _, ok := e.(lazyDec); ok {
+			return true
+		}
+	}
+	return false
+}
+
+// forceBytes materialises lazy decimals inside a byte list.
+func forceBytes(b []value) []value {
+	if !hasLazy(b) {
+		return b
+	}
+	var out []value
+	for _, p := range b {
+		if l, ok := p.(lazyDec); ok {
+			out = append(out, strElems(decimalBV(l.fr, l.v))...)
+		} else {
+			out = append(out, p)
+		}
+	}
+	return out
+}
+
+// force materialises lazily rendered strings.
+func force(v value) value {
+	if r, ok := v.(*rope); ok {
+		return r.force()
+	}
+	return v
+}
+
+func forceAll(vs []value) {
+	for i, v := range vs {
+		switch x := v.(type) {
+		case *rope:
+			vs[i] = x.force()
+		case iface:
+			if r, ok := x.v.(*rope); ok {
+				vs[i] = iface{t: x.t, v: r.force()}
+			}
+		}
+	}
+}
+
 func strElems(v value) []value {
 	switch s := v.(type) {
+	case *rope:
+		return strElems(s.force())
 	case string:
 		r := make([]value, len(s))
 		for i := 0; i < len(s); i++ {
@@ -61,7 +159,7 @@ func strElems(v value) []value {
 
 func isStr(v value) bool {
 	switch v.(type) {
-	case string, sstr:
+	case string, sstr, *rope:
 		return true
 	}
 	return false
@@ -90,6 +188,8 @@ func mkStr(b []value) value {
 
 func strLen(v value) int {
 	switch s := v.(type) {
+	case *rope:
+		return strLen(s.force())
 	case string:
 		return len(s)
 	case sstr:
@@ -155,7 +255,7 @@ func vNot(a value) value {
 
 func hasSym(x value) bool {
 	switch x := x.(type) {
-	case symv, sstr:
+	case symv, sstr, *rope:
 		return true
 	case structure:
 		for _, e := range x {
@@ -180,6 +280,7 @@ func equalsV(t types.Type, x, y value) value {
 	if !hasSym(x) && !hasSym(y) {
 		return equals(t, x, y)
 	}
+	x, y = force(x), force(y)
 	switch x := x.(type) {
 	case symv:
 		return mkVal(mkEq(x.t, termOf(y)), types.Bool)
@@ -235,6 +336,38 @@ func strEq(x, y value) value {
 }
 
 func elemsEq(a, b []value) value {
+	if hasLazy(a) || hasLazy(b) {
+		// same layout: compare piecewise (decimal renderings are canonical); otherwise materialise
+		same := len(a) == len(b)
+		if same {
+			for i := range a {
+				la, oka := a[i].(lazyDec)
+				lb, okb := b[i].(lazyDec)
+				if oka != okb || (oka && la.v.k != lb.v.k) {
+					same = false
+					break
+				}
+				if !oka {
+					ca, ok1 := a[i].(uint8)
+					cb, ok2 := b[i].(uint8)
+					if !ok1 || !ok2 || ca != cb {
+						same = false
+						break
+					}
+				}
+			}
+		}
+		if !same {
+			return elemsEq(forceBytes(a), forceBytes(b))
+		}
+		acc := tTrue
+		for i := range a {
+			if la, ok := a[i].(lazyDec); ok {
+				acc = mkAnd(acc, mkEq(la.v.t, b[i].(lazyDec).v.t))
+			}
+		}
+		return mkVal(acc, types.Bool)
+	}
 	if len(a) != len(b) {
 		return false
 	}
@@ -296,6 +429,7 @@ func (i *interpreter) divCheck(y value) {
 }
 
 func symBinop(i *interpreter, op token.Token, t types.Type, x, y value) value {
+	x, y = force(x), force(y)
 	// strings
 	if isStr(x) && isStr(y) {
 		switch op {
@@ -630,5 +764,37 @@ func (i *interpreter) noCode(fr *frame, fn *ssa.Function, args []value) value {
 		}
 		return zero(fn.Signature.Results())
 	}
+	if pkg := fnPkgPath(fn); noopPkgs[pkg] {
+		if i.px != nil {
+			i.px.intr["(no-op) "+pkg]++
+		}
+		return zero(fn.Signature.Results())
+	}
 	panic(engineError{"no code and no intrinsic for function: " + fn.String()})
+}
+
+// noopPkgs: observability packages whose body-less functions are treated as no-ops.
+var noopPkgs = map[string]bool{
+	"github.com/cosmos/cosmos-sdk/telemetry": true,
+	"github.com/hashicorp/go-metrics":        true,
+	"github.com/armon/go-metrics":            true,
+}
+
+func fnPkgPath(fn *ssa.Function) string {
+	if fn.Pkg != nil {
+		return fn.Pkg.Pkg.Path()
+	}
+	if recv := fn.Signature.Recv(); recv != nil {
+		t := recv.Type()
+		if p, ok := t.(*types.Pointer); ok {
+			t = p.Elem()
+		}
+		if n, ok := t.(*types.Named); ok && n.Obj().Pkg() != nil {
+			return n.Obj().Pkg().Path()
+		}
+	}
+	if fn.Object() != nil && fn.Object().Pkg() != nil {
+		return fn.Object().Pkg().Path()
+	}
+	return ""
 }
